@@ -127,6 +127,9 @@ def q_do_while(shape, N, timeout_ms, fm=3):
     s.add(z3.Not(concat_eq(res.pieces, want, N)))
     r = str(s.check())
     out["solver"] = r
+    if r == "unsat":  # second solver on the same assertions (SMT-LIB2 dump)
+        from .. import tv
+        out["cvc5"] = tv.cvc5_decide(s.to_smt2(), 60000)
     out["verdict"] = {"unsat": "ok", "sat": "differs"}.get(r, "unknown")
     if r == "sat":
         out["cex"] = model_string(s.model(), [(code, z3.IntVal(0), code.L)], N)
@@ -153,6 +156,10 @@ def run(tier):
     for r in framework.pmap(_q_job, [(sh, n, fm, 1500000 if thorough else 240000) for sh, n, fm in jobs]):
         shape = r["shape"]
         rep.count_query(r.get("solver", r["verdict"]))
+        if r.get("cvc5"):
+            rep.count_query("cvc5:" + r["cvc5"].split(":")[0])
+            if r["cvc5"] == "sat":
+                rep.harness_error(f"replace_do_while_0 {shape}: z3 answers unsat, cvc5 answers sat on the same assertions")
         key = f"shim:replace_do_while_0:{shape}:N={r['N']}"
         if r["verdict"] == "ok":
             rep.add(key, "ok", "unsat", "every wrapper replaced by its body, loop terminates, nothing else changed (within the bound)")
